@@ -124,15 +124,21 @@ def solve_one(job):
     idx, timeout_ms, use_cvc5 = job
     axioms = _AXIOMS
     ob = _JOBS[idx]
-    res, dt, info = _run_z3_direct(ob, timeout_ms, axioms)
+    z3_budget = timeout_ms
+    try:
+        stringy = 'str.' in ob.goal.sexpr() or any('str.' in p.sexpr() for p in ob.pc[-40:])
+    except Exception:
+        stringy = False
+    if stringy and use_cvc5:
+        z3_budget = min(timeout_ms, 6000)      # word equations: z3 answers at once or not at all; cvc5 takes over
+    res, dt, info = _run_z3_direct(ob, z3_budget, axioms)
     solver = 'z3'
     if res in ('unknown', 'error') and use_cvc5:
         try:
             smt = ob.smt2(axioms)
         except Exception:
             smt = 'lambda'
-        if ('String' in smt or 'str.' in smt) and 'lambda' not in smt and 'define-fun-rec' not in smt \
-                and 'forall' not in smt:
+        if ('String' in smt or 'str.' in smt) and 'lambda' not in smt and 'define-fun-rec' not in smt:
             r2, dt2, info2 = _run_cli(['/usr/bin/cvc5', '--strings-exp', '--tlimit=%d' % timeout_ms],
                                       _to_cvc5(smt), timeout_ms / 1000 + 5)
             if r2 in ('sat', 'unsat'):
@@ -148,7 +154,7 @@ def discharge(obligations, timeout_ms=20000, procs=None, use_cvc5=True, axioms=(
         if z3.is_true(g):
             ob.status, ob.solver, ob.time = 'proved', 'simplifier', 0.0
             continue
-        jobs.append((i, timeout_ms, use_cvc5))
+        jobs.append((i, getattr(ob, 'timeout_ms', None) or timeout_ms, use_cvc5))
     if not jobs:
         return
     global _JOBS, _AXIOMS
